@@ -124,11 +124,14 @@ Close(om, oe, X, xse) ==
              tl == B[1] + 2
          IN  Leq(A, AddNat(B, tl)) /\ Leq(B, AddNat(A, tl))
 
+\* At the top of the range a real number within 1e-14 of the reference may round to +-Inf (or, the reference being
+\* Inf, to a finite float64 next to MaxFloat64 = 1.7976931348623157e308): both are roundings of an acceptable value.
+NearMax(m, e) == IF e = 308 /\ Len(m) = 17 THEN Leq(<<1,7,9,7,6,9,3,1,3,4,8,6,2,2,8>>, SubSeq(m, 1, 15)) ELSE FALSE
 \* observed (cls, neg, m, e) against a reference float64 given in the same projection
 MatchesRef(cls, neg, m, e, rcls, rneg, rm, re) ==
     CASE rcls = "zero" -> cls = "zero"
-      [] rcls = "inf"  -> cls = "inf" /\ neg = rneg
-      [] rcls = "fin"  -> cls = "fin" /\ neg = rneg /\ Close(m, e, rm, re)
+      [] rcls = "inf"  -> neg = rneg /\ (cls = "inf" \/ (cls = "fin" /\ NearMax(m, e)))
+      [] rcls = "fin"  -> neg = rneg /\ IF cls = "fin" THEN Close(m, e, rm, re) ELSE cls = "inf" /\ NearMax(rm, re)
       [] OTHER         -> FALSE
 \* observed against the exact decimal value; decided where the correctly rounded float64 is certainly normal,
 \* certainly infinite or certainly zero, left to the reference in between
